@@ -634,7 +634,24 @@ var anyShapes = []string{
 	"nil *int", "nil *S", "nil **int", "nil *any", "nil", "error", "nil *myErr", "nil *calm", "*calm",
 	"Just(x)", "Just^n(x)", "None", "Just(None)", "Just(Just(None))", "JustGenerics[any](nil)", "JustGenerics[int](x)",
 	"*Maybe", "*hidden", "hidden", "nil named ptr", "named ptr", "unsafe.Pointer(nil)", "unsafe.Pointer", "[]any", "*[2]*int",
+	// values whose own String()/Error() method panics for this particular value: rendering them is the
+	// observers' business and must not panic either (fmt prints such values as %!v(PANIC=...))
+	"faulty Stringer", "struct embedding nil Stringer", "*faulty error",
 }
+
+// weekday-like enum whose String() indexes a table: out-of-range values make String() panic
+type faultyEnum int
+
+func (f faultyEnum) String() string { return [...]string{"a", "b"}[f] }
+
+type embedsNil struct {
+	fmt.Stringer
+	N int
+}
+
+type faultyErr struct{ m map[string]string }
+
+func (f *faultyErr) Error() string { f.m["x"] = "y"; return "never" } // writes to a nil map
 
 // buildAny builds the value of a shape and a fallback value that is not
 // identical to it.
@@ -729,6 +746,12 @@ func buildAny(shape string, p picks) (v any, fb any) {
 	case "*map(nil)":
 		var mm map[string]int
 		return &mm, fb
+	case "faulty Stringer":
+		return faultyEnum(7 + int(p.I&3)), fb
+	case "struct embedding nil Stringer":
+		return embedsNil{N: int(p.I)}, fb
+	case "*faulty error":
+		return &faultyErr{}, fb
 	case "nil *int":
 		return (*int)(nil), fb
 	case "nil *calm":
